@@ -61,6 +61,7 @@ def run(chk: Check, ctx: Any) -> None:
         "vertices/edges to delete are created per graph; the block writer asks its end-of-block callback before it validates the next vertex. "
         "Observed but out of reach (see DESIGN.md): e.g. a switch with one case group and no default still decompiles with a jump."
     )
+    chk.rule("C13-R6", "flat programs (statement sequences, if/elseif/else chains, switches with break-terminated cases; singles and ordered pairs, triples in the thorough tier) decompile - every stage interpreted - to ExplorerScript without jump, every operation printed once")
     chk.rule("C13-R1", "join search liveness: the edges followed from a vertex come from an adjacency query on that vertex")
     chk.rule("C13-R2", "marker producer/consumer agreement: every LabelMarker subclass is consumed by LabelWriteHandler; check_end_block compares the id of its own start marker")
     chk.rule("C13-R3", "no stale igraph handles: edge variables read by a rewriting loop's condition are re-fetched after the rewrite; delete-sets are per graph; "
@@ -227,6 +228,9 @@ def run(chk: Check, ctx: Any) -> None:
                        "callback first, then validation, then write", node=nest)
             brk = any(isinstance(x, ast.Break) for x in ast.walk(cb))
             chk.decide("C13-R3", "block-writer:callback-breaks", brk, bw, "a negative end-of-block answer does not leave the loop", "negative answer leaves the loop")
+    from .roundtrip import summarise as _rt
+    _rt(chk, ctx, "C13-R6", "C13", getattr(ctx, "tier", "quick") == "thorough")
+
 
 
 # --------------------------------------------------------------------------- R4/R5
